@@ -28,14 +28,13 @@ func runC18(c *core.Ctx) *core.Violation {
 	t := c.T
 	backend := "mem"
 	capacity := 4096
-	switch t.Choose(10) {
-	case 0, 1, 2, 3, 4, 5:
-		capacity = 4096
-	case 6, 7, 8:
-		capacity = 8192
-	case 9:
+	switch k := t.Choose(12); k {
+	case 11:
 		backend = "file"
 		capacity = backlog.FileSizeAlign
+	default:
+		// 1..8 alignment units, including capacities that are not powers of two
+		capacity = 4096 * []int{1, 1, 1, 2, 2, 3, 3, 5, 6, 7, 4}[k]
 	}
 	reqSize := capacity
 	if backend == "mem" && t.Chance(300) {
